@@ -51,6 +51,21 @@ def jobs_for(ctx, classes, mult=1):
     return jobs
 
 
+def handoff_jobs(ctx, classes, mult=1):
+    """the same trees, with the calls made from two or three threads strictly one after the other (claripy frontends keep
+    their Z3 solver object per thread; whatever a frontend remembers about sharing it must hold across threads too)"""
+    jobs = []
+    for cls in classes:
+        for name in ("simplify-downsize-on-one-side", "add-on-parent", "nested"):
+            h = [dict(d, t=1) if 2 <= k < len(RULES[name]) - 2 and k % 3 else dict(d) for k, d in enumerate(RULES[name])]
+            jobs.append({"cls": cls, "cfg": {"track": False, "reuse": False}, "hist": h})
+        lens = ctx.pick([12, 20], [30, 60])
+        for i in range(ctx.pick(8, 60) * mult):
+            jobs.append({"cls": cls, "cfg": {"track": False, "reuse": False}, "len": lens[i % len(lens)],
+                         "gen": {"weights": WEIGHTS, "max_solvers": 4, "threads": 1 + i % 2}})
+    return jobs
+
+
 def isolation_failures(ctx, fails, budget=60):
     """keep the failures that disappear when the solver runs alone along its lineage (twice), reproduce them twice"""
     uni = L.Universe()
@@ -89,7 +104,8 @@ def run(ctx):
     ctx.cov["rule"] = ("trees of up to 5 solvers grown by branch() with interleaved adds, queries, simplify and downsize on all of them; classes Solver, "
                        "SolverCacheless, SolverStrings (with model correspondence incl. the sharing graph of Z3 objects) and SolverComposite, SolverHybrid, "
                        "SolverReplacement (oracle); a wrong answer counts as an isolation failure iff the solver answers correctly when run alone along its "
-                       "lineage; non-trivial = history with >= 3 calls")
+                       "lineage; a further stream makes the calls of such trees from two or three threads, strictly one after the other (oracle only); "
+                       "non-trivial = history with >= 3 calls")
     tie_ok = True
     try:
         write_if_changed(os.path.join(LEAN, "Claripy", "Gen", "SolverMro.lean"), ts.render(ts.translate()))
@@ -113,6 +129,9 @@ def run(ctx):
     m2 = SC.run_jobs(ctx, jobs_for(ctx, OTHERS), workers, corr=False, chunk_size=ctx.pick(10, 20))
     SC.merge_cov(ctx, m2, "other-classes")
     fails += m2["fails"]
+    m4 = SC.run_jobs(ctx, handoff_jobs(ctx, MODELLED[:2] + OTHERS, mult=3 if ctx.broken else 1), workers, corr=False, chunk_size=ctx.pick(8, 16))
+    SC.merge_cov(ctx, m4, "thread-hand-off")
+    fails += m4["fails"]
     if ctx.broken and not fails:
         m3 = SC.run_jobs(ctx, jobs_for(ctx, MODELLED, mult=3), workers, corr=False, chunk_size=30)
         SC.merge_cov(ctx, m3, "failing-input-search")
